@@ -295,11 +295,11 @@ Definition is_external (labels : list (str * symdata)) (n : str) : bool :=
   match lookup n labels with Some d => sd_external d | None => false end.
 Definition covered (bs : blocks) (addr : Z) : bool :=
   match img_blocks bs addr with Some _ => true | None => false end.
-(* line runs: sorted, non-overlapping, inside the text; every address of a run lies in the image *)
+(* line runs: sorted, non-empty, non-overlapping, inside the text; every address of a run lies in the image *)
 Fixpoint lines_ok (lo nlines : Z) (bs : blocks) (m : linemap) : bool :=
   match m with
   | [] => true
-  | (k, ws) :: r => (lo <=? k) && (k + zlen ws <=? nlines) && forallb (covered bs) ws && lines_ok (k + zlen ws) nlines bs r
+  | (k, ws) :: r => (lo <=? k) && (0 <? zlen ws) && (k + zlen ws <=? nlines) && forallb (covered bs) ws && lines_ok (k + zlen ws) nlines bs r
   end.
 Definition symtab_ok (bs : blocks) (st : symtab) : bool :=
   nodup_str (map fst (st_labels st))
